@@ -397,6 +397,14 @@ fn check_textdiff(alg: similar::Algorithm, old: &[u8], new: &[u8], radii: &[usiz
                 let _ = u.to_string();
                 u.context_radius(b);
                 let hunks: Vec<Vec<DiffOp>> = u.iter_hunks().map(|h| h.ops().to_vec()).collect();
+                // a copy of the configured formatter, if the type can be copied at all: on a tree
+                // where UnifiedDiff is not Clone, `(&u).clone()` merely copies the reference
+                #[allow(noop_method_call, clippy::clone_on_copy)]
+                let copy = (&u).clone();
+                let copied: Vec<Vec<DiffOp>> = copy.iter_hunks().map(|h| h.ops().to_vec()).collect();
+                if copied != hunks {
+                    panic!("a clone of a UnifiedDiff set to radius {} yields hunks {:?}, the original {:?}", b, copied, hunks);
+                }
                 (d.ops().to_vec(), second, hunks)
             })
             .map_err(|p| format!("grouping with radius {} and then {} on the same object: panic: {}", a, b, p))?;
